@@ -18,27 +18,25 @@ Local Notation "1f" := (f1 Op).
 Local Notation pF := (prodF Op).
 Local Notation scl := (scaled Op).
 
-Lemma prodl_scaled : forall gs gs' ds idx, scl gs gs' ds -> length idx = length gs ->
+Lemma prodl_scaled : forall dims gs gs' ds idx, scl dims gs gs' ds -> inb dims idx ->
   prodl Op gs idx = pF ds *f prodl Op gs' idx.
 Proof.
-  induction gs as [|g gs IH]; intros [|g' gs'] [|d ds] idx H HL; simpl in H; try tauto.
-  - simpl. ring.
-  - destruct H as [H1 H2]. destruct idx as [|i idx]; simpl in HL; [discriminate|].
-    cbn [prodl prodF]. rewrite (IH gs' ds idx H2) by lia. rewrite H1. ring.
+  induction dims as [|n dims IH]; intros [|g gs] [|g' gs'] [|d ds] idx H Hin; simpl in H; try tauto.
+  - destruct idx; simpl in Hin; [|tauto]. simpl. ring.
+  - destruct H as [H1 H2]. destruct idx as [|i idx]; simpl in Hin; [tauto|]. destruct Hin as [Hi Hin].
+    cbn [prodl prodF]. rewrite (IH gs gs' ds idx H2 Hin). rewrite (H1 i Hi). ring.
 Qed.
 
 (* a CP tensor whose columns are rescaled and whose weights absorb the scales represents the same tensor *)
 Theorem cp_entry_rescale (s : list nat) (R : nat) (w w' : nat -> F) (cols cols' : nat -> list (nat -> F))
         (ds : nat -> list F) :
   (forall r, r < R -> length (cols r) = length s) ->
-  (forall r, r < R -> scl (cols r) (cols' r) (ds r)) ->
+  (forall r, r < R -> scl s (cols r) (cols' r) (ds r)) ->
   (forall r, r < R -> w' r = w r *f pF (ds r)) ->
   forall idx, inb s idx -> cp_entry Op R w' cols' idx = cp_entry Op R w cols idx.
 Proof.
   intros Hc Hs Hw idx Hin. unfold cp_entry. apply S_ext; intros r Hr.
-  rewrite (prodl_scaled (cols r) (cols' r) (ds r) idx (Hs r Hr)).
-  - rewrite (Hw r Hr). ring.
-  - rewrite (Hc r Hr). now apply inb_length.
+  rewrite (prodl_scaled s (cols r) (cols' r) (ds r) idx (Hs r Hr) Hin). rewrite (Hw r Hr). ring.
 Qed.
 
 (* ---------------------------------------------------------------- the CP blocks *)
